@@ -186,6 +186,72 @@ pub fn run(out: &mut Out, seed: u64, thorough: bool) {
             rx.ev_drain(out);
         }
     }
+    // the crate's own managers: SignalisationMandatoryExtensionHeaderManager knows 0x0081 / 0x0082 as final
+    // extensions without data, SimpleMandatoryExtensionHeaderManager knows nothing
+    for (which, ptype) in [(0usize, 0x0081u16), (0, 0x0082), (1, 0x0081), (0, 0x0083)] {
+        for plen in [0usize, 1, 7, 40] {
+            for buf in [64usize, 13] {
+                let pdu = Pdu::random(out, plen, &mut rng);
+                let table = if which == 0 { TableMgr { known: vec![(0x0081, true, 0), (0x0082, true, 0)] } } else { TableMgr { known: vec![] } };
+                out.begin("ext", Obj::new().str("what", "bundled_manager").boolean("lock", true).raw("rx", &jrxcfg(2, 64, &table).end()));
+                let mut enc = Encapsulator::new(DefaultCrc {});
+                let mut wires: Vec<Vec<u8>> = vec![];
+                let t = ev_encap(out, &mut enc, &pdu, 9, LA6, ptype, buf, None, None);
+                let mut ctx = match &t.res {
+                    Some(Ok(EncapStatus::CompletedPkt(_))) => {
+                        wires.push(t.wire.clone());
+                        None
+                    }
+                    Some(Ok(EncapStatus::FragmentedPkt(_, c))) => {
+                        wires.push(t.wire.clone());
+                        Some(*c)
+                    }
+                    _ => None,
+                };
+                // one packet at a time: the trace must stay in lock-step (encap event, then its decap)
+                macro_rules! run_rx {
+                    ($rx:expr) => {{
+                        let rx = $rx;
+                        rx.note_id(9);
+                        rx.ev_provision(out, 64);
+                        rx.ev_provision(out, 65);
+                        for w in wires.drain(..) {
+                            feed(out, rx, &w, vec![]);
+                        }
+                        let mut guard = 0;
+                        while let Some(c) = ctx {
+                            guard += 1;
+                            if guard > 10 {
+                                break;
+                            }
+                            let t = ev_encap_frag(out, &enc, &pdu, &c, 25);
+                            ctx = match &t.res {
+                                Some(Ok(EncapStatus::FragmentedPkt(_, c2))) => {
+                                    feed(out, rx, &t.wire, vec![]);
+                                    Some(*c2)
+                                }
+                                Some(Ok(EncapStatus::CompletedPkt(_))) => {
+                                    feed(out, rx, &t.wire, vec![]);
+                                    None
+                                }
+                                _ => None,
+                            };
+                        }
+                        rx.ev_drain(out);
+                    }};
+                }
+                if which == 0 {
+                    let mut rx: Rx<DefaultCrc, dvb_gse_rust::header_extension::SignalisationMandatoryExtensionHeaderManager> =
+                        Rx::with_manager(2, 64, DefaultCrc {}, dvb_gse_rust::header_extension::SignalisationMandatoryExtensionHeaderManager {});
+                    run_rx!(&mut rx);
+                } else {
+                    let mut rx: Rx<DefaultCrc, dvb_gse_rust::header_extension::SimpleMandatoryExtensionHeaderManager> =
+                        Rx::with_manager(2, 64, DefaultCrc {}, dvb_gse_rust::header_extension::SimpleMandatoryExtensionHeaderManager {});
+                    run_rx!(&mut rx);
+                }
+            }
+        }
+    }
     // combinations encap_ext must refuse
     let bad: Vec<(Vec<usize>, u16)> = vec![
         (vec![0], 0x0043),       // ptype < 0x100 but the last extension is optional
